@@ -566,7 +566,9 @@ class HTMLBinaryInputStream(HTMLUnicodeInputStream):
             # Need to detect UTF-32 before UTF-16
             encoding = bomDict.get(string)         # UTF-32
             seek = 4
-            if not encoding:
+            if not encoding or lookupEncoding(encoding) is None:
+                # (UTF-32 is not a supported encoding: FF FE 00 00 is a
+                # UTF-16LE BOM followed by U+0000)
                 encoding = bomDict.get(string[:2])  # UTF-16
                 seek = 2
 
